@@ -224,13 +224,22 @@ def generate(seed, tier):
                 p['transient'] = er.randrange(1, 3)
                 if p['disk'] == 'ABSENT':
                     p['disk'] = 'ENOENT'
+    sched = {'kind': 'file', 'mode': 'root', 'book_order': [0],
+             'placement': pl, 'sheet_orders': {},
+             'exec_seed': None, 'extlinks': er.chance(.3),
+             'compact': er.pick([1, 1, 2, 1000])}
+    # (not with real externalLink parts: to_dict() exports the numeric link
+    # id, which from_dict() cannot resolve - C09's business)
+    # (nor with spill references: a dictionary carries no array anchors)
+    spill = any(x[0] == 'an' for c in world['cells'] if 'f' in c
+                for x in walk(c['f']))
+    if not sched['extlinks'] and not transient and not spill and \
+            er.chance(.25):
+        sched['reimport'] = True
     return {'prop': ID, 'seed': seed, 'tier': tier, 'world': world,
             'points': points, 'subsets': subsets, 'exhaustive': exhaustive,
-            'transient': transient,
-            'schedule': {'kind': 'file', 'mode': 'root', 'book_order': [0],
-                         'placement': pl, 'sheet_orders': {},
-                         'exec_seed': None, 'extlinks': er.chance(.3),
-                         'compact': er.pick([1, 1, 2, 1000])}}
+            'transient': transient, 'schedule': sched}
+
 
 
 # -------------------------------------------------------------- instantiation
@@ -383,6 +392,17 @@ def run_one(world, placement, sched, info, transient, log, stats):
                 disk.plan[path] = {'kind': p['disk'], 'arg': p['arg'],
                                    'transient': p.get('transient', 0)}
         m, _ = build_file_model(world, placement, sched, disk=disk, log=log)
+        if sched.get('reimport'):
+            # the documented export / import round trip (through JSON text):
+            # the re-imported model must show the same local damage
+            import json
+            from formulas import ExcelModel
+            log.add('client', 'reimport')
+            loaded = list(m.cells)
+            m = ExcelModel().from_dict(json.loads(json.dumps(m.to_dict())))
+            # (what counts as loaded is what the file model had loaded: the
+            # export also lists the blank fillers of cells never read)
+            m.loaded_cells = loaded
         sol = m.calculate()
     finally:
         disk.uninstall()
@@ -428,7 +448,8 @@ def execute(trace, env=None):
         fail('C14.twin', 'fault-free twin raised %r' % ex,
              tb=traceback.format_exc()[-1500:])
         return result(trace, viol, log, stats, keys)
-    twin = Observation(twin_w, pl, tsol, list(tm.cells)).normal(names=False)
+    twin = Observation(twin_w, pl, tsol, getattr(
+        tm, 'loaded_cells', None) or list(tm.cells)).normal(names=False)
     if trace.get('exhaustive'):
         stats['exhaustive_worlds'] = 1
     for on in trace['subsets']:
@@ -450,7 +471,8 @@ def execute(trace, env=None):
                     stats['structural_faults'].get(p['kind'], 0) + 1
         if any(n > 1 for n in disk.opens.values()):
             stats['reopened_after_failure'] += 1
-        obs = FaultObservation(w, pl, sol, list(m.cells), info, transient)
+        obs = FaultObservation(w, pl, sol, getattr(
+            m, 'loaded_cells', None) or list(m.cells), info, transient)
         nontriv = judge(w, obs, twin, info, transient, fail, stats,
                         describe(points, on), sorted(on), pl)
         fired = bool(disk.fired) or any(
